@@ -321,9 +321,17 @@ pub fn c10(tier: Tier) -> i32 {
             let mut ok = true;
             for j in 0..k {
                 let (w, rd) = if j % 2 == 0 { (&mut i, &mut r) } else { (&mut r, &mut i) };
-                match w.write_message(b"x", &mut buf).and_then(|l| rd.read_message(&buf[..l], &mut out)) {
-                    Ok(_) => {},
-                    Err(_) => ok = false,
+                ctx.add(&ctx.evaluations, 1);
+                match catch_unwind(AssertUnwindSafe(|| w.write_message(b"x", &mut buf).and_then(|l| rd.read_message(&buf[..l], &mut out)))) {
+                    Ok(Ok(_)) => {},
+                    Ok(Err(_)) => ok = false,
+                    Err(p) => {
+                        ctx.violation(format!("hfs build: an honest handshake step panicked ({})", panic_msg(p)), format!("{name} message {j}"), json!({"kind": "hfs-honest", "name": name, "msg": j}));
+                        ok = false;
+                    },
+                }
+                if !ok {
+                    break;
                 }
             }
             if !ok {
@@ -347,11 +355,13 @@ pub fn c10(tier: Tier) -> i32 {
                 let mut good = true;
                 for j in 0..k {
                     let (w2, rd2) = if j % 2 == 0 { (&mut i2, &mut r2) } else { (&mut r2, &mut i2) };
-                    good &= w2.write_message(b"x", &mut buf).and_then(|l| rd2.read_message(&buf[..l], &mut out)).is_ok();
+                    // (the same steps ran without a panic for the first pair)
+                    good &= matches!(catch_unwind(AssertUnwindSafe(|| w2.write_message(b"x", &mut buf).and_then(|l| rd2.read_message(&buf[..l], &mut out)))), Ok(Ok(_)));
                 }
                 let (w2, rd2) = if k % 2 == 0 { (&mut i2, &mut r2) } else { (&mut r2, &mut i2) };
                 if good {
-                    if let Ok(l) = w2.write_message(b"payload", &mut buf) {
+                    // a panic of this full-size write was reported by the buffer sweep above
+                    if let Ok(Ok(l)) = catch_unwind(AssertUnwindSafe(|| w2.write_message(b"payload", &mut buf))) {
                         for c in caps.iter().filter(|c| **c < l).chain([l + 1, 65536].iter()) {
                             ctx.add(&ctx.evaluations, 1);
                             let m: Vec<u8> = buf[..(*c).min(buf.len())].to_vec();
